@@ -350,7 +350,7 @@ def value_predicates(op, names, facts, lres, rres, ldiff, Lroot):
         if op["parents"] and not op["exist_ok"] and facts["self"] in ("dir", "ld") and lres[1] == "FileExistsError":
             return "C24/mkdir-p-conflates-parents-and-exist_ok"
     if t == "symlink_to" and "raw_target" in op and T.subst(op["raw_target"], names).startswith("-") and lok \
-            and facts["self"] == "missing" and not N.special_chars(T.subst(op["raw_target"], names) + rel, N.UNQUOTED_SPECIAL) \
+            and facts["self"] == "missing" \
             and any(d[0] == rel and d[1] == ["link", T.subst(op["raw_target"], names)] for d in ldiff):
         # ln parses the relative target as options (no `--`): the local link exists, the remote one is missing / elsewhere
         return "C24/option-injection:symlink_to"
@@ -364,6 +364,13 @@ def value_predicates(op, names, facts, lres, rres, ldiff, Lroot):
     if t == "write_text" and lres[0] == "exc" and rok and tree_equal and rv == len(N.expand(op["data"])):
         # tee failed (directory / missing parent) but the stream writer never looks at its exit status
         return "C24/write_text-ignores-failure"
+    if t == "glob" and lok and rok and tree_equal and lv != rv and any(ch in rel for ch in "*?["):
+        # the *local* API hands str(self / pattern) to glob.glob: metacharacters in self are treated as a pattern
+        import glob as _glob
+
+        exp = sorted(x.replace(Lroot, "<R>") for x in _glob.glob(os.path.join(_glob.escape(p), op["pattern"])))
+        if rv == exp and lv != exp:
+            return "C24/local-glob-unescaped-self"
     if t == "glob" and lok and rok and tree_equal and lv and rv == []:
         first = min(lv, key=lambda s: s.encode("utf-8"))
         q = first.replace("<R>", Lroot)
@@ -414,7 +421,8 @@ async def run_case(env: Env, sh: Shard, case: dict, is_twin: bool = False, want_
             rres = await guarded(env, perform(env, env.rloc, R, op, names))
             if any("&" in s for s in interpolated(op, names)):
                 await settle_children(env)
-                await SG.settle_background(R)
+                if not await SG.settle_background(env.cwd, env.conn):
+                    sh.count("background_jobs_not_settled")
             lsnap, rsnap = T.snapshot(L), T.snapshot(R)
             stray = T.listdir_safe(env.cwd)
             if stray:
@@ -542,6 +550,8 @@ DIRECTED = [
         {"op": "mkdir", "path": "p1/p2/<2>", "mode": 0o750, "parents": True, "exist_ok": True}]),
     _d(_B, [_F("<0>"), _F("<1>", "other")],
        [{"op": "symlink_to", "path": "<1>", "target": "<0>"}, {"op": "hardlink_to", "path": "<1>", "target": "<0>"}]),
+    _d(["b[ab]c", "File1", "data01", "README"], [_D("<0>"), _F("<0>/<1>"), _D("<2>"), _F("<2>/<1>")],
+       [{"op": "glob", "path": "<0>", "pattern": "*"}, {"op": "glob", "path": "<2>", "pattern": "*"}]),
     _d(["a", "b", "data01", "README"], [_D("d"), ["rawlink", "d/<0>", "nope"], _F("d/<1>")],
        [{"op": "glob", "path": "d", "pattern": "*"}, {"op": "glob", "path": "d", "pattern": "b*"}, {"op": "glob", "path": "", "pattern": "*/*"}]),
 ]
